@@ -15,8 +15,8 @@ import (
 // annotation; Go values are built from it (several times, independently, when
 // a check needs "equal bindings" at different addresses / insertion orders).
 type LV struct {
-	T  string   `json:"t"`            // nil bool int float str time arr map imap amap struct drop
-	R  string   `json:"r,omitempty"`  // representation
+	T  string   `json:"t"`           // nil bool int float str time arr map imap amap struct drop
+	R  string   `json:"r,omitempty"` // representation
 	B  bool     `json:"b,omitempty"`
 	I  int64    `json:"i,omitempty"`
 	F  float64  `json:"f,omitempty"`
